@@ -96,6 +96,11 @@ CHECKS = {
             "Generated-input search: 40000 (quick) / 800000 (thorough) histories with names up to 258 characters from three alphabets, incl. the fixed-buffer half of C17 (raw long-name runs).",
             "trusted: the driver source being identical across builds, proptest; only the three listed feature sets",
             "DESIGN.md 5 C19"),
+    "C20": ("exploration",
+            "model-based + invariant checking on sparse simulated volumes: scripted and proptest-generated histories on 2 TiB / 16 TiB / maximum-cluster-count FAT32 volumes with the FS-info hint at, before and past the last cluster and pre-filled table windows; oracles = byte-array model, refdec fsck through a sparse FAT view, per-write region/ownership classification against independent 64-bit geometry, device high-water marks",
+            "Generated-input search over large geometries (imggen-built and library-formatted), every hint/window configuration with a scripted 30-op history plus random short histories.",
+            "trusted: refdec geometry (u64), sparse device (untouched bytes read as zero), proptest",
+            "DESIGN.md 5 C20"),
 }
 
 PENDING_REASON = "check under construction in this session; not claimed yet (technique applies, see DESIGN.md)"
